@@ -31,7 +31,7 @@ func Props() []*harness.Prop {
 var (
 	uObjs  = []string{"doc:1", "doc:2", "group:1"}
 	uRels  = []string{"viewer", "member"}
-	uUsers = []string{"user:a", "user:b", "user:*", "group:1#member", "doc:2"}
+	uUsers = []string{"user:a", "user:b", "user:*", "group:1#member", "doc:2", "group:1#viewer", "doc:2#member", "doc:2#viewer"}
 )
 
 func pickT(g *gen.G) T {
